@@ -681,6 +681,7 @@ func ruleL16(p *Prog, r *Report) {
 		}
 		r.Decide(good, R, cons, p.Pos(f.Pos()), "constant part equals the encoder's fixed bytes ("+c.konst+") and the content's size is added", c.typ+"."+c.method+" "+detail+": the reported size would differ from the bytes written")
 	}
+	ruleL16Rootness(p, r, &n)
 	r.Floor(R, "established sizes", 60, n)
 }
 
